@@ -31,7 +31,7 @@ macro_rules! report {
     }};
 }
 
-const MODELS_QUICK: u64 = 25;
+const MODELS_QUICK: u64 = 100;
 const MODELS_THOROUGH: u64 = 10000;
 
 fn load(env: &Env, text: &str) -> Result<Result<v1::Instance, String>, PanicInfo> {
@@ -393,7 +393,7 @@ impl Property for C19 {
     }
     fn min_nontrivial(&self, tier: Tier) -> u64 {
         match tier {
-            Tier::Quick => 700,
+            Tier::Quick => 2_800,
             Tier::Thorough => 270_000,
         }
     }
